@@ -55,17 +55,20 @@ def repo_hash():
 CXXFLAGS = f"-std=c++11 -O1 -g -fPIC -DUSING_MPI -D{GUARD} -I{REPO} -I{REPO}/raptor -w"
 
 
-def build_repo(log):
+ASAN = "-fsanitize=address -fno-omit-frame-pointer"
+
+
+def build_repo(log, asan=False):
     """compile every non-test, non-external .cpp under /repo/raptor from the current working tree"""
     key = repo_hash()
-    d = os.path.join(CACHE, "lib-" + key)
+    d = os.path.join(CACHE, ("asan-" if asan else "lib-") + key)
     lib = os.path.join(d, "libraptor.a")
-    with Lock("build"):
+    with Lock("build-asan" if asan else "build"):
         if os.path.exists(lib):
             return d, key, 0.0
         t0 = time.time()
         # keep the cache small: remove older library builds
-        for old in glob.glob(os.path.join(CACHE, "lib-*")):
+        for old in glob.glob(os.path.join(CACHE, "asan-*" if asan else "lib-*")):
             if old != d:
                 shutil.rmtree(old, ignore_errors=True)
         os.makedirs(os.path.join(d, "obj"), exist_ok=True)
@@ -74,7 +77,7 @@ def build_repo(log):
         jobs = []
         for c in cpps:
             o = os.path.join(d, "obj", hashlib.md5(c.encode()).hexdigest()[:10] + "_" + os.path.basename(c)[:-4] + ".o")
-            jobs.append(f"mpicxx {CXXFLAGS} -c {c} -o {o}")
+            jobs.append(f"mpicxx {CXXFLAGS} {ASAN if asan else ''} -c {c} -o {o}")
         with open(os.path.join(d, "jobs.txt"), "w") as f:
             f.write("\n".join(jobs) + "\n")
         r = sh(f"xargs -P{NCPU} -I{{}} sh -c '{{}}' < {d}/jobs.txt")
@@ -209,7 +212,7 @@ def audit_axioms(module, theorems, log):
 
 def mpirun(exe, np, args, env=None, timeout=900):
     e = dict(os.environ)
-    e.update({"OMPI_ALLOW_RUN_AS_ROOT": "1", "OMPI_ALLOW_RUN_AS_ROOT_CONFIRM": "1",
+    e.update({"ASAN_OPTIONS": "detect_leaks=0:abort_on_error=0:exitcode=99", "OMPI_ALLOW_RUN_AS_ROOT": "1", "OMPI_ALLOW_RUN_AS_ROOT_CONFIRM": "1",
               "OMPI_MCA_rmaps_base_oversubscribe": "1", "OMPI_MCA_btl_vader_single_copy_mechanism": "none",
               "OMPI_MCA_mpi_yield_when_idle": "1"})
     if env:
